@@ -561,4 +561,817 @@ theorem check_closed {ms : Macros} (h : checkRecursion ms = .ok ()) {a : Nat} {m
     exact h2
   · exact h3 x hx (by simpa using hxa) mx hmx
 
+/-- transitive closure of "macro `a` is defined and its body contains `PASTE @b`" -/
+inductive Reach (ms : Macros) : Nat → Nat → Prop where
+  | single {a b : Nat} : (∃ m, ms.get? a = some m ∧ b ∈ pastes m) → Reach ms a b
+  | tail {a b c : Nat} : Reach ms a b → (∃ m, ms.get? b = some m ∧ c ∈ pastes m) → Reach ms a c
+
+theorem Reach.defined {ms : Macros} {x y : Nat} (h : Reach ms x y) : ∃ m, ms.get? x = some m := by
+  induction h with
+  | single e => rcases e with ⟨m, hm, _⟩; exact ⟨m, hm⟩
+  | tail _ _ ih => exact ih
+
+/-- a passed check means that the PASTE graph of the macros has no cycle -/
+theorem check_acyclic {ms : Macros} (hc : checkRecursion ms = .ok ()) (a : Nat) : ¬ Reach ms a a := by
+  intro h
+  rcases h.defined with ⟨m, hm⟩
+  rcases check_closed hc hm with ⟨S, hSa, hS⟩
+  have key : ∀ x y, Reach ms x y → S x → S y ∧ y ≠ a := by
+    intro x y hxy
+    induction hxy with
+    | single e =>
+      intro hx
+      rcases e with ⟨mx, hmx, hy⟩
+      exact hS _ hx mx hmx _ hy
+    | tail _ e ih =>
+      intro hx
+      rcases e with ⟨mb, hmb, hy⟩
+      exact hS _ (ih hx).1 mb hmb _ hy
+  exact (key a a h hSa).2 rfl
+
+/-! ## 4. Fuel -/
+
+/-- weight of the macros whose name is not in `v` -/
+def unv : Macros → List Nat → Nat
+  | [], _ => 0
+  | (n, m) :: r, v => (if n ∈ v then 0 else 2 * treeSize m + 1) + unv r v
+
+theorem unv_mono (ms : Macros) {v v' : List Nat} (h : ∀ x ∈ v, x ∈ v') : unv ms v' ≤ unv ms v := by
+  induction ms with
+  | nil => simp [unv]
+  | cons p r ih =>
+    rcases p with ⟨n, m⟩
+    simp only [unv]
+    by_cases hn : n ∈ v
+    · simp only [hn, h n hn, if_true]; omega
+    · by_cases hn' : n ∈ v'
+      · simp only [hn, hn', if_true, if_false]; omega
+      · simp only [hn, hn', if_false]; omega
+
+theorem unv_visit {ms : Macros} {n : Nat} {m : Tree} {v : List Nat} (hmem : (n, m) ∈ ms) (hn : n ∉ v) :
+    unv ms (n :: v) + 2 * treeSize m + 1 ≤ unv ms v := by
+  induction ms with
+  | nil => cases hmem
+  | cons p r ih =>
+    rcases p with ⟨k, t⟩
+    simp only [unv]
+    rcases List.mem_cons.mp hmem with heq | hmem
+    · cases heq
+      have := unv_mono r (v := v) (v' := n :: v) (fun x hx => List.mem_cons_of_mem _ hx)
+      simp only [List.mem_cons, true_or, if_true, hn, if_false]
+      omega
+    · have := ih hmem
+      by_cases hk : k ∈ v
+      · simp only [hk, List.mem_cons, or_true, if_true]; omega
+      · by_cases hkn : k = n
+        · simp only [hkn, List.mem_cons, true_or, if_true]; omega
+        · simp only [hk, hkn, List.mem_cons, false_or, if_false]; omega
+
+theorem foldl_size (l : Macros) (k : Nat) :
+    l.foldl (fun n m => n + treeSize m.2 + 1) k = k + l.foldl (fun n m => n + treeSize m.2 + 1) 0 := by
+  induction l generalizing k with
+  | nil => simp
+  | cons p r ih =>
+    simp only [List.foldl_cons]
+    rw [ih (k + treeSize p.2 + 1), ih (0 + treeSize p.2 + 1)]
+    omega
+
+theorem macrosSize_cons (p : Nat × Tree) (r : Macros) :
+    macrosSize (p :: r) = treeSize p.2 + 1 + macrosSize r := by
+  unfold macrosSize
+  rw [List.foldl_cons, foldl_size]
+  omega
+
+theorem unv_nil_le (ms : Macros) : unv ms [] ≤ 2 * macrosSize ms := by
+  induction ms with
+  | nil => simp [unv]
+  | cons p r ih =>
+    rcases p with ⟨n, m⟩
+    rw [macrosSize_cons]
+    simp only [unv, List.not_mem_nil, if_false]
+    omega
+
+theorem treeSize_node (d : Dir) (kids : List Tree) :
+    treeSize (.node d kids) = 1 + treeSize.sizeList kids := by rw [treeSize]
+
+theorem treeSize_pos (t : Tree) : 1 ≤ treeSize t := by
+  rcases t with ⟨d, kids⟩; rw [treeSize_node]; omega
+
+theorem treeSize_kids (t : Tree) : treeSize t = 1 + treeSize.sizeList t.kids := by
+  rcases t with ⟨d, kids⟩; rw [treeSize_node]; rfl
+
+/-- the DFS of the recursion check never runs out of fuel when given twice the size of what is unvisited -/
+theorem findPaste_fuel (ms : Macros) (tgt : Nat) : ∀ fuel : Nat,
+    (∀ t v, 2 * treeSize t + unv ms v ≤ fuel → findPaste ms tgt fuel t v ≠ .error .fuel) ∧
+    (∀ l v, 2 * treeSize.sizeList l + 1 + unv ms v ≤ fuel →
+      findPasteList ms tgt fuel l v ≠ .error .fuel) := by
+  intro fuel
+  induction fuel with
+  | zero =>
+    constructor
+    · intro t v h; have := treeSize_pos t; omega
+    · intro l v h; omega
+  | succ fuel ih =>
+    rcases ih with ⟨ihT, ihL⟩
+    constructor
+    · intro t v hf
+      rcases t with ⟨d, kids⟩
+      rw [treeSize_node] at hf
+      rw [findPaste]
+      split
+      · split
+        · simp
+        · split
+          · simp
+          · split
+            · simp
+            · rename_i hv
+              split
+              · rename_i m hm
+                apply ihT
+                have := unv_visit (get?_mem hm) (v := v) (by simpa using hv)
+                omega
+              · simp
+      · apply ihL
+        omega
+    · intro l v hf
+      cases l with
+      | nil => rw [findPasteList]; simp
+      | cons t r =>
+        rw [treeSize.sizeList] at hf
+        rw [findPasteList]
+        have h1 := ihT t v (by omega)
+        split
+        · rename_i e he
+          intro hc
+          cases hc
+          exact h1 he
+        · rename_i v1 hv1
+          apply ihL
+          have := unv_mono ms ((findPaste_closed ms tgt fuel).1 _ _ _ hv1).1
+          have := treeSize_pos t
+          omega
+
+theorem go_no_fuel (ms : Macros) : ∀ l : Macros, (∀ p ∈ l, p ∈ ms) →
+    checkRecursion.go ms l ≠ .error .fuel := by
+  intro l
+  induction l with
+  | nil => intro _; rw [checkRecursion.go]; simp
+  | cons q r ih =>
+    intro hsub
+    rcases q with ⟨name, m⟩
+    rw [checkRecursion.go]
+    have hmem : (name, m) ∈ ms := hsub _ (List.mem_cons_self ..)
+    have h1 := (findPaste_fuel ms name (2 * macrosSize ms + 2)).1 m [name] (by
+      have := unv_visit hmem (v := []) (by simp)
+      have := unv_nil_le ms
+      omega)
+    split
+    · rename_i e he
+      intro hc
+      cases hc
+      exact h1 he
+    · exact ih (fun p hp => hsub p (List.mem_cons_of_mem _ hp))
+
+theorem checkRecursion_no_fuel (ms : Macros) : checkRecursion ms ≠ .error .fuel :=
+  go_no_fuel ms ms (fun _ h => h)
+
+theorem pastes_of_not_paste {m : Tree} (h : m.dir.kind ≠ Gen.Kind.Paste) :
+    pastes m = pastes.pastesL m.kids := by
+  rcases m with ⟨d, kids⟩
+  have : (d.kind == Gen.Kind.Paste) = false := by simpa [Tree.dir] using h
+  rw [pastes]
+  simp [this, Tree.kids]
+
+/-- with an acyclic PASTE graph the expansion never runs out of fuel when given twice the size of the
+    tree plus twice the size of the macros that are not being expanded already (`path`) -/
+theorem expand_fuel (ms : Macros) (hk : ∀ p ∈ ms, p.2.dir.kind ≠ Gen.Kind.Paste)
+    (hac : ∀ a, ¬ Reach ms a a) : ∀ fuel : Nat,
+    (∀ path outer st t, (∀ n ∈ pastes t, ∀ p ∈ path, Reach ms p n) →
+      2 * treeSize t + unv ms path ≤ fuel → expandTree ms fuel outer st t ≠ .error .fuel) ∧
+    (∀ path outer st l, (∀ n ∈ pastes.pastesL l, ∀ p ∈ path, Reach ms p n) →
+      2 * treeSize.sizeList l + 1 + unv ms path ≤ fuel →
+      expandList ms fuel outer st l ≠ .error .fuel) := by
+  intro fuel
+  induction fuel with
+  | zero =>
+    constructor
+    · intro path outer st t _ h; have := treeSize_pos t; omega
+    · intro path outer st l _ h; omega
+  | succ fuel ih =>
+    rcases ih with ⟨ihT, ihL⟩
+    constructor
+    · intro path outer st t hreach hf
+      rcases t with ⟨d, kids⟩
+      rw [treeSize_node] at hf
+      rw [pastes] at hreach
+      rw [expandTree]
+      split
+      · rename_i hkd
+        simp only [hkd, if_true, List.mem_singleton, forall_eq] at hreach
+        simp only
+        split
+        · simp
+        · split
+          · simp
+          · split
+            · simp
+            · rename_i m hm
+              split
+              · simp
+              · rename_i rules' _
+                have hmem := get?_mem hm
+                have hnp : d.name ∉ path := fun hin => hac _ (hreach _ hin)
+                have hedge : ∀ n ∈ pastes.pastesL m.kids, ∃ m', ms.get? d.name = some m' ∧ n ∈ pastes m' :=
+                  fun n hn => ⟨m, hm, by rw [pastes_of_not_paste (hk _ hmem)]; exact hn⟩
+                have h1 := ihL (d.name :: path) (some (outer.getD d.id)) { st with rules := rules' } m.kids
+                  (by
+                    intro n hn p hp
+                    rcases List.mem_cons.mp hp with rfl | hp
+                    · exact .single (hedge n hn)
+                    · exact .tail (hreach p hp) (hedge n hn))
+                  (by
+                    have := unv_visit hmem hnp
+                    have := treeSize_kids m
+                    omega)
+                split
+                · rename_i he; exact absurd he h1
+                · simp
+                · simp
+      · rename_i hkd
+        simp only [hkd] at hreach
+        split
+        · split <;> simp
+        · rename_i c1 hp
+          simp only
+          have h1 := ihL path outer { st with ctx := c1 } kids hreach (by omega)
+          split
+          · rename_i e he
+            intro hc
+            cases hc
+            exact h1 he
+          · split <;> simp
+    · intro path outer st l hreach hf
+      cases l with
+      | nil => rw [expandList]; simp
+      | cons t r =>
+        rw [treeSize.sizeList] at hf
+        rw [pastes.pastesL] at hreach
+        rw [expandList]
+        have h1 := ihT path outer st t (fun n hn => hreach n (List.mem_append_left _ hn)) (by omega)
+        split
+        · rename_i e he
+          intro hc
+          cases hc
+          exact h1 he
+        · apply ihL path _ _ _ (fun n hn => hreach n (List.mem_append_right _ hn))
+          have := treeSize_pos t
+          omega
+
+theorem forest_eq_sizeList (l : List Tree) : expand.TreeSize.forest l = treeSize.sizeList l := by
+  induction l with
+  | nil => rfl
+  | cons t r ih => rw [expand.TreeSize.forest, treeSize.sizeList, ih]
+
+theorem expandFuel_enough (ms : Macros) (rest : List Tree) :
+    2 * treeSize.sizeList rest + 1 + unv ms [] ≤ expandFuel ms rest := by
+  have h1 := unv_nil_le ms
+  have h2 : 2 * (macrosSize ms + expand.TreeSize.forest rest + 2) ≤
+      (macrosSize ms + 2) * (macrosSize ms + expand.TreeSize.forest rest + 2) :=
+    Nat.mul_le_mul_right _ (by omega)
+  rw [forest_eq_sizeList] at h2
+  unfold expandFuel
+  rw [forest_eq_sizeList]
+  omega
+
+/-- what `collectMacro` adds to the macro table: MACRO trees under their own names -/
+theorem collect_entries (l : List Tree) (ms : Macros) (acc : List Tree) (ms' : Macros) (rest : List Tree)
+    (h : collectMacro l ms acc = .ok (ms', rest)) :
+    ∀ p ∈ ms', p ∈ ms ∨ (p.2 ∈ l ∧ p.2.dir.kind = Gen.Kind.Macro ∧ p.1 = p.2.dir.name) := by
+  induction l generalizing ms acc with
+  | nil =>
+    rw [collectMacro] at h
+    cases h
+    exact fun p hp => .inl hp
+  | cons t r ih =>
+    rw [collectMacro] at h
+    split at h
+    · rename_i hkt
+      split at h
+      · cases h
+      · split at h
+        · cases h
+        · split at h
+          · cases h
+          · split at h
+            · cases h
+            · intro p hp
+              rcases ih _ _ h p hp with h1 | ⟨h1, h2, h3⟩
+              · rcases List.mem_append.mp h1 with h1 | h1
+                · exact .inl h1
+                · rw [List.mem_singleton] at h1
+                  subst h1
+                  exact .inr ⟨List.mem_cons_self .., by simpa using hkt, rfl⟩
+              · exact .inr ⟨List.mem_cons_of_mem _ h1, h2, h3⟩
+    · intro p hp
+      rcases ih _ _ h p hp with h1 | ⟨h1, h2, h3⟩
+      · exact .inl h1
+      · exact .inr ⟨List.mem_cons_of_mem _ h1, h2, h3⟩
+
+theorem collect_no_fuel (l : List Tree) (ms : Macros) (acc : List Tree) :
+    collectMacro l ms acc ≠ .error .fuel := by
+  induction l generalizing ms acc with
+  | nil => rw [collectMacro]; simp
+  | cons t r ih =>
+    rw [collectMacro]
+    split
+    · split
+      · simp
+      · split
+        · simp
+        · split
+          · simp
+          · split
+            · simp
+            · exact ih _ _
+    · exact ih _ _
+
+theorem collect_kinds {roots : List Tree} {ms : Macros} {rest : List Tree}
+    (h : collectMacro roots [] [] = .ok (ms, rest)) : ∀ p ∈ ms, p.2.dir.kind ≠ Gen.Kind.Paste := by
+  intro p hp
+  rcases collect_entries _ _ _ _ _ h p hp with h1 | ⟨_, h2, _⟩
+  · cases h1
+  · rw [h2]; decide
+
+/-- the expansion proper never runs out of the fuel that `expand` gives it -/
+theorem expandList_no_fuel {ms : Macros} (hk : ∀ p ∈ ms, p.2.dir.kind ≠ Gen.Kind.Paste)
+    (hr : checkRecursion ms = .ok ()) (rest : List Tree) (st : PState) :
+    expandList ms (expandFuel ms rest) none st rest ≠ .error .fuel :=
+  (expand_fuel ms hk (check_acyclic hr) _).2 [] none st rest
+    (fun _ _ p hp => by cases hp) (expandFuel_enough ms rest)
+
+/-! ## 5. Removing a macro that nothing pastes -/
+
+theorem collect_append (pre l : List Tree) (ms : Macros) (acc : List Tree) :
+    collectMacro (pre ++ l) ms acc = match collectMacro pre ms acc with
+      | .ok (ms1, acc1) => collectMacro l ms1 acc1
+      | .error e => .error e := by
+  induction pre generalizing ms acc with
+  | nil => rw [List.nil_append, collectMacro]
+  | cons t r ih =>
+    rw [List.cons_append, collectMacro, collectMacro]
+    split
+    · split
+      · rfl
+      · split
+        · rfl
+        · split
+          · rfl
+          · split
+            · rfl
+            · exact ih _ _
+    · exact ih _ _
+
+theorem get?_cons (x : Nat × Tree) (B : Macros) (n : Nat) :
+    Macros.get? (x :: B) n = if x.1 == n then some x.2 else B.get? n := by
+  unfold Macros.get?
+  rw [List.find?_cons]
+  cases h : x.1 == n <;> simp
+
+theorem get?_drop (A : Macros) (x : Nat × Tree) (C : Macros) {n : Nat} (h : n ≠ x.1) :
+    (A ++ x :: C).get? n = (A ++ C).get? n := by
+  rw [get?_append, get?_append, get?_cons]
+  have : (x.1 == n) = false := by simpa using fun e => h e.symm
+  simp [this]
+
+theorem get?_isSome_insert (A : Macros) (x : Nat × Tree) (B : Macros) {n : Nat}
+    (h : ((A ++ B).get? n).isSome) : ((A ++ x :: B).get? n).isSome := by
+  rw [get?_append] at h ⊢
+  rw [get?_cons]
+  cases hA : A.get? n with
+  | some a => simp
+  | none =>
+    simp only [hA, Option.none_or] at h ⊢
+    split
+    · rfl
+    · exact h
+
+/-- the collection started with one entry less behaves the same and yields one entry less -/
+theorem collect_drop (l : List Tree) (A : Macros) (x : Nat × Tree) (B : Macros) (acc : List Tree)
+    (ms' : Macros) (rest : List Tree) (h : collectMacro l (A ++ x :: B) acc = .ok (ms', rest)) :
+    ∃ C, ms' = A ++ x :: (B ++ C) ∧ collectMacro l (A ++ B) acc = .ok (A ++ (B ++ C), rest) := by
+  induction l generalizing B acc with
+  | nil =>
+    rw [collectMacro] at h
+    cases h
+    exact ⟨[], by simp, by rw [collectMacro]; simp⟩
+  | cons t r ih =>
+    rw [collectMacro] at h
+    rw [collectMacro]
+    split at h
+    · rename_i hkt
+      simp only [hkt, if_true]
+      split at h
+      · cases h
+      · rename_i h1
+        split at h
+        · cases h
+        · rename_i h2
+          split at h
+          · cases h
+          · rename_i h3
+            split at h
+            · cases h
+            · rename_i h4
+              have h4' : ¬ ((A ++ B).get? t.dir.name).isSome = true :=
+                fun hc => h4 (get?_isSome_insert A x B hc)
+              simp only [h1, h2, h3, h4']
+              have e1 : A ++ x :: B ++ [(t.dir.name, t)] = A ++ x :: (B ++ [(t.dir.name, t)]) := by simp
+              rw [e1] at h
+              rcases ih _ _ h with ⟨C, hC1, hC2⟩
+              refine ⟨(t.dir.name, t) :: C, by simpa using hC1, ?_⟩
+              have e2 : A ++ B ++ [(t.dir.name, t)] = A ++ (B ++ [(t.dir.name, t)]) := by simp
+              rw [e2, hC2]
+              simp
+    · rename_i hkt
+      simp only [hkt]
+      exact ih _ _ h
+
+theorem collect_rest (l : List Tree) (ms : Macros) (acc : List Tree) (ms' : Macros) (rest : List Tree)
+    (h : collectMacro l ms acc = .ok (ms', rest)) : ∀ t ∈ rest, t ∈ acc ∨ t ∈ l := by
+  induction l generalizing ms acc with
+  | nil =>
+    rw [collectMacro] at h
+    cases h
+    exact fun t ht => .inl ht
+  | cons t r ih =>
+    rw [collectMacro] at h
+    split at h
+    · split at h
+      · cases h
+      · split at h
+        · cases h
+        · split at h
+          · cases h
+          · split at h
+            · cases h
+            · intro u hu
+              rcases ih _ _ h u hu with h1 | h1
+              · exact .inl h1
+              · exact .inr (List.mem_cons_of_mem _ h1)
+    · intro u hu
+      rcases ih _ _ h u hu with h1 | h1
+      · rcases List.mem_append.mp h1 with h1 | h1
+        · exact .inl h1
+        · exact .inr (by rw [List.mem_singleton] at h1; subst h1; exact List.mem_cons_self ..)
+      · exact .inr (List.mem_cons_of_mem _ h1)
+
+/-- splitting the collection at a MACRO `m` that the source can do without -/
+theorem collect_remove {pre post : List Tree} {m : Tree} {ms : Macros} {rest : List Tree}
+    (hm : m.dir.kind = Gen.Kind.Macro)
+    (h : collectMacro (pre ++ m :: post) [] [] = .ok (ms, rest)) :
+    ∃ A C, ms = A ++ (m.dir.name, m) :: C ∧ collectMacro (pre ++ post) [] [] = .ok (A ++ C, rest) := by
+  rw [collect_append] at h
+  split at h
+  · rename_i ms1 acc1 hpre
+    rw [collectMacro] at h
+    simp only [hm, beq_self_eq_true, if_true] at h
+    split at h
+    · cases h
+    · split at h
+      · cases h
+      · split at h
+        · cases h
+        · split at h
+          · cases h
+          · have e : ms1 ++ [(m.dir.name, m)] = ms1 ++ (m.dir.name, m) :: [] := rfl
+            rw [e] at h
+            rcases collect_drop _ _ _ _ _ _ _ h with ⟨C, hC1, hC2⟩
+            refine ⟨ms1, C, by simpa using hC1, ?_⟩
+            rw [collect_append, hpre]
+            simpa using hC2
+  · cases h
+
+theorem not_mem_pastesL {a : Nat} {l : List Tree} (h : ∀ t ∈ l, a ∉ pastes t) : a ∉ pastes.pastesL l := by
+  induction l with
+  | nil => simp [pastes.pastesL]
+  | cons t r ih =>
+    rw [pastes.pastesL]
+    intro hc
+    rcases List.mem_append.mp hc with hc | hc
+    · exact h t (List.mem_cons_self ..) hc
+    · exact ih (fun u hu => h u (List.mem_cons_of_mem _ hu)) hc
+
+theorem macrosSize_append (A B : Macros) : macrosSize (A ++ B) = macrosSize A + macrosSize B := by
+  induction A with
+  | nil => simp [macrosSize]
+  | cons p r ih => rw [List.cons_append, macrosSize_cons, macrosSize_cons, ih]; omega
+
+/-- on trees that do not paste `x`, the recursion check does not see `x` -/
+theorem findPaste_drop (A : Macros) (x : Nat × Tree) (C : Macros) (tgt : Nat)
+    (hclean : ∀ p ∈ A ++ C, x.1 ∉ pastes p.2) : ∀ fuel : Nat,
+    (∀ t v, x.1 ∉ pastes t →
+      findPaste (A ++ x :: C) tgt fuel t v = findPaste (A ++ C) tgt fuel t v) ∧
+    (∀ l v, x.1 ∉ pastes.pastesL l →
+      findPasteList (A ++ x :: C) tgt fuel l v = findPasteList (A ++ C) tgt fuel l v) := by
+  intro fuel
+  induction fuel with
+  | zero => exact ⟨fun t v _ => by simp [findPaste], fun l v _ => by simp [findPasteList]⟩
+  | succ fuel ih =>
+    rcases ih with ⟨ihT, ihL⟩
+    constructor
+    · intro t v hx
+      rcases t with ⟨d, kids⟩
+      rw [pastes] at hx
+      rw [findPaste, findPaste]
+      by_cases hk : (d.kind == Gen.Kind.Paste) = true
+      · simp only [hk, if_true, List.mem_singleton] at hx ⊢
+        rw [get?_drop A x C (fun e => hx e.symm)]
+        cases hm : (A ++ C).get? d.name with
+        | none => rfl
+        | some m =>
+          simp only
+          rw [ihT m _ (hclean _ (get?_mem hm))]
+      · simp only [hk] at hx ⊢
+        exact ihL _ _ hx
+    · intro l v hx
+      cases l with
+      | nil => rw [findPasteList, findPasteList]
+      | cons t r =>
+        rw [pastes.pastesL] at hx
+        rw [findPasteList, findPasteList, ihT t v (fun h => hx (List.mem_append_left _ h))]
+        cases findPaste (A ++ C) tgt fuel t v with
+        | error e => rfl
+        | ok v1 => exact ihL r v1 (fun h => hx (List.mem_append_right _ h))
+
+/-- more fuel does not change a result that is not "out of fuel" -/
+theorem findPaste_succ (ms : Macros) (tgt : Nat) : ∀ fuel : Nat,
+    (∀ t v r, findPaste ms tgt fuel t v = r → r ≠ .error .fuel → findPaste ms tgt (fuel + 1) t v = r) ∧
+    (∀ l v r, findPasteList ms tgt fuel l v = r → r ≠ .error .fuel →
+      findPasteList ms tgt (fuel + 1) l v = r) := by
+  intro fuel
+  induction fuel with
+  | zero =>
+    constructor
+    · intro t v r h hr; rw [findPaste] at h; exact absurd h.symm hr
+    · intro l v r h hr; rw [findPasteList] at h; exact absurd h.symm hr
+  | succ fuel ih =>
+    rcases ih with ⟨ihT, ihL⟩
+    constructor
+    · intro t v r h hr
+      rcases t with ⟨d, kids⟩
+      rw [findPaste] at h ⊢
+      by_cases hk : (d.kind == Gen.Kind.Paste) = true
+      · simp only [hk, if_true] at h ⊢
+        cases hm : ms.get? d.name with
+        | none => simpa [hm] using h
+        | some m =>
+          simp only [hm] at h ⊢
+          split
+          · rename_i h1
+            simp only [h1, if_true] at h
+            exact h
+          · rename_i h1
+            split
+            · rename_i h2
+              simp only [h1, h2, if_true] at h
+              exact h
+            · rename_i h2
+              split
+              · rename_i h3
+                simp only [h1, h2, h3, if_true] at h
+                exact h
+              · rename_i h3
+                simp only [h1, h2, h3] at h
+                exact ihT _ _ _ h hr
+      · simp only [hk] at h ⊢
+        exact ihL _ _ _ h hr
+    · intro l v r h hr
+      cases l with
+      | nil => rw [findPasteList] at h ⊢; exact h
+      | cons t u =>
+        rw [findPasteList] at h ⊢
+        cases ht : findPaste ms tgt fuel t v with
+        | error e =>
+          rw [ht] at h
+          simp only at h
+          have he : (Except.error e : Except PasteErr (List Nat)) ≠ .error .fuel := by
+            rw [h]; exact hr
+          rw [ihT _ _ _ ht he]
+          exact h
+        | ok v1 =>
+          rw [ht] at h
+          simp only at h
+          rw [ihT _ _ _ ht (by simp)]
+          exact ihL _ _ _ h hr
+
+theorem findPaste_le (ms : Macros) (tgt : Nat) {fuel fuel' : Nat} (hle : fuel ≤ fuel') (t : Tree)
+    (v : List Nat) (h : findPaste ms tgt fuel t v ≠ .error .fuel) :
+    findPaste ms tgt fuel' t v = findPaste ms tgt fuel t v := by
+  induction hle with
+  | refl => rfl
+  | step _ ih => exact (findPaste_succ ms tgt _).1 t v _ ih h
+
+theorem go_of_ok (ms : Macros) : ∀ l : Macros,
+    (∀ p ∈ l, ∃ v', findPaste ms p.1 (2 * macrosSize ms + 2) p.2 [p.1] = .ok v') →
+    checkRecursion.go ms l = .ok () := by
+  intro l
+  induction l with
+  | nil => intro _; rw [checkRecursion.go]
+  | cons q r ih =>
+    intro h
+    rcases q with ⟨name, m⟩
+    rcases h (name, m) (List.mem_cons_self ..) with ⟨v', hv⟩
+    rw [checkRecursion.go]
+    simp only at hv
+    rw [hv]
+    exact ih (fun p hp => h p (List.mem_cons_of_mem _ hp))
+
+/-- the recursion check still passes without a macro that nothing pastes -/
+theorem check_drop (A : Macros) (x : Nat × Tree) (C : Macros)
+    (hclean : ∀ p ∈ A ++ C, x.1 ∉ pastes p.2) (h : checkRecursion (A ++ x :: C) = .ok ()) :
+    checkRecursion (A ++ C) = .ok () := by
+  apply go_of_ok
+  intro p hp
+  have hp' : p ∈ A ++ x :: C := by
+    rcases List.mem_append.mp hp with hp | hp
+    · exact List.mem_append_left _ hp
+    · exact List.mem_append_right _ (List.mem_cons_of_mem _ hp)
+  rcases go_ok _ _ h p hp' with ⟨v', hv⟩
+  rw [(findPaste_drop A x C p.1 hclean _).1 _ _ (hclean p hp)] at hv
+  have hsz : 2 * macrosSize (A ++ C) + 2 ≤ 2 * macrosSize (A ++ x :: C) + 2 := by
+    rw [macrosSize_append, macrosSize_append, macrosSize_cons]; omega
+  have hnf := (findPaste_fuel (A ++ C) p.1 (2 * macrosSize (A ++ C) + 2)).1 p.2 [p.1] (by
+    have := unv_visit (ms := A ++ C) (n := p.1) (m := p.2) (v := []) hp (by simp)
+    have := unv_nil_le (A ++ C)
+    omega)
+  rw [findPaste_le _ _ hsz _ _ hnf] at hv
+  exact ⟨v', hv⟩
+
+/-- on trees that do not paste `x`, the expansion does not see `x` -/
+theorem expand_drop (A : Macros) (x : Nat × Tree) (C : Macros)
+    (hclean : ∀ p ∈ A ++ C, x.1 ∉ pastes.pastesL p.2.kids) : ∀ fuel : Nat,
+    (∀ t, x.1 ∉ pastes t → ∀ outer st,
+      expandTree (A ++ x :: C) fuel outer st t = expandTree (A ++ C) fuel outer st t) ∧
+    (∀ l, x.1 ∉ pastes.pastesL l → ∀ outer st,
+      expandList (A ++ x :: C) fuel outer st l = expandList (A ++ C) fuel outer st l) := by
+  intro fuel
+  induction fuel with
+  | zero => exact ⟨fun t _ outer st => by simp [expandTree], fun l _ outer st => by simp [expandList]⟩
+  | succ fuel ih =>
+    rcases ih with ⟨ihT, ihL⟩
+    constructor
+    · intro t hx outer st
+      rcases t with ⟨d, kids⟩
+      rw [pastes] at hx
+      rw [expandTree, expandTree]
+      by_cases hk : (d.kind == Gen.Kind.Paste) = true
+      · simp only [hk, if_true, List.mem_singleton] at hx ⊢
+        rw [get?_drop A x C (fun e => hx e.symm)]
+        cases hm : (A ++ C).get? d.name with
+        | none => rfl
+        | some m =>
+          have e := ihL m.kids (hclean _ (get?_mem hm))
+          simp only [e]
+      · simp only [hk, Bool.false_eq_true, if_false] at hx ⊢
+        have e := ihL kids hx
+        simp only [e]
+    · intro l hx outer st
+      cases l with
+      | nil => rw [expandList, expandList]
+      | cons t r =>
+        rw [pastes.pastesL] at hx
+        rw [expandList, expandList, ihT t (fun h => hx (List.mem_append_left _ h))]
+        cases expandTree (A ++ C) fuel outer st t with
+        | error e => rfl
+        | ok st1 => exact ihL r (fun h => hx (List.mem_append_right _ h)) _ _
+
+/-- more fuel does not change a result that is not "out of fuel" -/
+theorem expand_succ (ms : Macros) : ∀ fuel : Nat,
+    (∀ outer st t r, expandTree ms fuel outer st t = r → r ≠ .error .fuel →
+      expandTree ms (fuel + 1) outer st t = r) ∧
+    (∀ outer st l r, expandList ms fuel outer st l = r → r ≠ .error .fuel →
+      expandList ms (fuel + 1) outer st l = r) := by
+  intro fuel
+  induction fuel with
+  | zero =>
+    constructor
+    · intro outer st t r h hr; rw [expandTree] at h; exact absurd h.symm hr
+    · intro outer st l r h hr; rw [expandList] at h; exact absurd h.symm hr
+  | succ fuel ih =>
+    rcases ih with ⟨ihT, ihL⟩
+    constructor
+    · intro outer st t r h hr
+      rcases t with ⟨d, kids⟩
+      rw [expandTree] at h ⊢
+      by_cases hk : (d.kind == Gen.Kind.Paste) = true
+      · simp only [hk, if_true] at h ⊢
+        split
+        · rename_i h1
+          simp only [h1, if_true] at h
+          exact h
+        · rename_i h1
+          split
+          · rename_i h2
+            simp only [h1, h2, if_true] at h
+            exact h
+          · rename_i h2
+            simp only [h1, h2] at h
+            cases hm : ms.get? d.name with
+            | none => simpa [hm] using h
+            | some m =>
+              simp only [hm] at h ⊢
+              cases hce : collectEnums st.rules m.kids with
+              | error e => simpa [hce] using h
+              | ok rules' =>
+                simp only [hce] at h ⊢
+                cases hl : expandList ms fuel (some (outer.getD d.id)) { st with rules := rules' } m.kids with
+                | error e =>
+                  rw [hl] at h
+                  have he : (Except.error e : Except PasteErr PState) ≠ .error .fuel := by
+                    intro hc
+                    cases hc
+                    exact hr h.symm
+                  rw [ihL _ _ _ _ hl he]
+                  exact h
+                | ok st' =>
+                  rw [hl] at h
+                  rw [ihL _ _ _ _ hl (by simp)]
+                  exact h
+      · simp only [hk, Bool.false_eq_true, if_false] at h ⊢
+        cases hp : place st.ctx.frames st.ctx.roots d with
+        | error e => simpa [hp] using h
+        | ok c1 =>
+          simp only [hp] at h ⊢
+          cases hl : expandList ms fuel outer { st with ctx := c1 } kids with
+          | error e =>
+            rw [hl] at h
+            simp only at h
+            have he : (Except.error e : Except PasteErr PState) ≠ .error .fuel := by
+              rw [h]; exact hr
+            rw [ihL _ _ _ _ hl he]
+            exact h
+          | ok st2 =>
+            rw [hl] at h
+            rw [ihL _ _ _ _ hl (by simp)]
+            exact h
+    · intro outer st l r h hr
+      cases l with
+      | nil => rw [expandList] at h ⊢; exact h
+      | cons t u =>
+        rw [expandList] at h ⊢
+        cases ht : expandTree ms fuel outer st t with
+        | error e =>
+          rw [ht] at h
+          simp only at h
+          have he : (Except.error e : Except PasteErr PState) ≠ .error .fuel := by
+            rw [h]; exact hr
+          rw [ihT _ _ _ _ ht he]
+          exact h
+        | ok st1 =>
+          rw [ht] at h
+          simp only at h
+          rw [ihT _ _ _ _ ht (by simp)]
+          exact ihL _ _ _ _ h hr
+
+theorem expandList_le (ms : Macros) {fuel fuel' : Nat} (hle : fuel ≤ fuel') (outer : Option Nat)
+    (st : PState) (l : List Tree) (h : expandList ms fuel outer st l ≠ .error .fuel) :
+    expandList ms fuel' outer st l = expandList ms fuel outer st l := by
+  induction hle with
+  | refl => rfl
+  | step _ ih => exact (expand_succ ms _).2 outer st l _ ih h
+
+theorem expandFuel_mono {ms ms' : Macros} (h : macrosSize ms' ≤ macrosSize ms) (rest : List Tree) :
+    expandFuel ms' rest ≤ expandFuel ms rest := by
+  unfold expandFuel
+  apply Nat.add_le_add_right
+  exact Nat.mul_le_mul (by omega) (by omega)
+
+/-- (6) at the level of the collected macro table -/
+theorem expandList_drop (A : Macros) (x : Nat × Tree) (C : Macros) (rest : List Tree)
+    (hkA : ∀ p ∈ A ++ x :: C, p.2.dir.kind ≠ Gen.Kind.Paste)
+    (hclean : ∀ p ∈ A ++ C, x.1 ∉ pastes p.2) (hrest : x.1 ∉ pastes.pastesL rest)
+    (hr : checkRecursion (A ++ x :: C) = .ok ()) (st : PState)
+    (h : expandList (A ++ x :: C) (expandFuel (A ++ x :: C) rest) none {} rest = .ok st) :
+    checkRecursion (A ++ C) = .ok () ∧
+      expandList (A ++ C) (expandFuel (A ++ C) rest) none {} rest = .ok st := by
+  have hr' := check_drop A x C hclean hr
+  have hsub : ∀ p ∈ A ++ C, p ∈ A ++ x :: C := by
+    intro p hp
+    rcases List.mem_append.mp hp with hp | hp
+    · exact List.mem_append_left _ hp
+    · exact List.mem_append_right _ (List.mem_cons_of_mem _ hp)
+  have hk' : ∀ p ∈ A ++ C, p.2.dir.kind ≠ Gen.Kind.Paste := fun p hp => hkA p (hsub p hp)
+  have hclean' : ∀ p ∈ A ++ C, x.1 ∉ pastes.pastesL p.2.kids := by
+    intro p hp
+    rw [← pastes_of_not_paste (hk' p hp)]
+    exact hclean p hp
+  refine ⟨hr', ?_⟩
+  have hnf := expandList_no_fuel hk' hr' rest {}
+  have hsz : macrosSize (A ++ C) ≤ macrosSize (A ++ x :: C) := by
+    rw [macrosSize_append, macrosSize_append, macrosSize_cons]; omega
+  rw [← expandList_le _ (expandFuel_mono hsz rest) _ _ _ hnf,
+    ← (expand_drop A x C hclean' _).2 rest hrest]
+  exact h
+
 end JSight.C07
